@@ -262,12 +262,43 @@ func runSweepItem(i uint64) (bool, error) {
 	return true, nil
 }
 
-var sweepDeadlock = pbt.RegisterSweep(pbt.Sweep{Prop: "C10", Name: "method-self-deadlock",
-	Rule: "exhaustive over (type, exported method, state) for the 17 hash map/set types, the linked list and the two request queues (reflection over the method sets; states empty / 3 elements / 200 elements / bounded and full / 3 elements with the structure itself passed wherever a structure of its own type is expected / 3 elements and a key whose Hash and Equals panic / 3 elements and caller-supplied functions - Sort comparators, the queues' Failed and Overflowed callbacks with the queue at its bound - that panic): the method is invoked with generated arguments in its own goroutine on an instance nobody else touches, followed by a locking probe (Clear); a call found parked on a sync primitive inside golib in three consecutive goroutine-stack samples is a self-deadlock (no wall-clock verdict; a blocking dequeue on an empty queue is not issued); every (type, method, state) is a distinct non-trivial case",
+// The same sweep runs a second time in a process started with WHATAP_DATETIME_MODE=sync (the library's cached clock:
+// dateutil.SystemNow() is a value a ticker refreshes every millisecond): timed operations must complete there too.
+var sweepDeadlockName, sweepDeadlockMode = func() (string, string) {
+	if m := os.Getenv("WHATAP_DATETIME_MODE"); m != "" && m != "default" {
+		return "method-self-deadlock-cached-clock", "in a process started with WHATAP_DATETIME_MODE=" + m + " (cached clock refreshed by a 1 ms ticker), "
+	}
+	return "method-self-deadlock", ""
+}()
+
+var sweepDeadlock = pbt.RegisterSweep(pbt.Sweep{Prop: "C10", Name: sweepDeadlockName,
+	Rule: sweepDeadlockMode + "exhaustive over (type, exported method, state) for the 17 hash map/set types, the linked list and the two request queues (reflection over the method sets; states empty / 3 elements / 200 elements / bounded and full / 3 elements with the structure itself passed wherever a structure of its own type is expected / 3 elements and a key whose Hash and Equals panic / 3 elements and caller-supplied functions - Sort comparators, the queues' Failed and Overflowed callbacks with the queue at its bound - that panic): the method is invoked with generated arguments in its own goroutine on an instance nobody else touches, followed by a locking probe (Clear); a call found parked on a sync primitive inside golib in three consecutive goroutine-stack samples is a self-deadlock (no wall-clock verdict; a blocking dequeue on an empty queue is not issued); every (type, method, state) is a distinct non-trivial case",
 	N:    uint64(len(sweepItems)), Run: runSweepItem,
 	Show: func(i uint64) interface{} { return sweepItems[i] }})
 
-func TestMethodSelfDeadlock(t *testing.T) { sweepDeadlock.Check(t, 8) }
+func TestMethodSelfDeadlock(t *testing.T) {
+	sweepDeadlock.Check(t, 8)
+	sweepTimedGet.Check(t, 8)
+}
+
+// A timed dequeue on a queue nobody feeds comes back when its time is up - in either clock mode of the library.
+var timedGetTypes = []string{"RequestQueue", "RequestDoubleQueue"}
+
+var sweepTimedGet = pbt.RegisterSweep(pbt.Sweep{Prop: "C10", Name: "timed-get-completes" + strings.TrimPrefix(sweepDeadlockName, "method-self-deadlock"),
+	Rule: sweepDeadlockMode + "GetTimeout(5..30 ms) on an empty request queue / double queue that no producer feeds, 30 (quick) / 300 (thorough) times per type on fresh instances: the call must return (verdict from goroutine stacks as in the method sweep: parked on a sync primitive inside golib in three consecutive samples = blocked on the structure's own lock / condition); every call is a distinct non-trivial case",
+	N:    uint64(len(timedGetTypes) * pbt.Pick(30, 300)),
+	Run: func(i uint64) (bool, error) {
+		ct := ctypeByName[timedGetTypes[i%uint64(len(timedGetTypes))]]
+		self := reflect.ValueOf(ct.New())
+		ms := 5 + int(i/2)%6*5
+		m := self.MethodByName("GetTimeout")
+		out := guardedCall(func() []reflect.Value { return m.Call([]reflect.Value{reflect.ValueOf(ms)}) })
+		if out.blocked != "" {
+			return true, fmt.Errorf("%s.GetTimeout(%d) on an empty queue nobody feeds never returns %s", ct.Name, ms, out.blocked)
+		}
+		return true, nil
+	},
+	Show: func(i uint64) interface{} { return fmt.Sprintf("%s call %d", timedGetTypes[i%2], i/2) }})
 
 // ---- concurrent programs ----------------------------------------------------------------------------
 
@@ -1320,6 +1351,8 @@ type BoundCase struct {
 	Producers int    `json:"producers"`
 	N         int    `json:"n"`      // insertions per producer per round
 	Rounds    int    `json:"rounds"` // fresh instance per round
+	// Collide: keys are chosen so that the element coming in and the eldest one going out share a hash bucket
+	Collide bool `json:"collide,omitempty"`
 }
 
 func boundTypes() []string {
@@ -1343,6 +1376,14 @@ func boundTypes() []string {
 func runBound(c BoundCase) *pbt.Result {
 	ct := ctypeByName[c.Type]
 	isQueue := ct.Kind == "queue"
+	// key of the id-th element: the id itself, or (Collide) a key that falls into the bucket of the element inserted
+	// `bound` insertions earlier - the one that has to make room for it - and of no element in between (default table of 101 buckets)
+	key := func(id int) int {
+		if c.Collide && c.Bound > 0 && c.Bound < 101 {
+			return id%c.Bound + 101*(id/c.Bound)
+		}
+		return id
+	}
 	for round := 0; round < c.Rounds; round++ {
 		self := reflect.ValueOf(ct.New())
 		if sm := self.MethodByName("SetMax"); sm.IsValid() && sm.Type().NumIn() == 1 {
@@ -1381,14 +1422,14 @@ func runBound(c BoundCase) *pbt.Result {
 				}
 				for i := 0; i < c.N; i++ {
 					id := 1 + p*c.N + i
-					out := ins.Call(callArgs(ins, id, id, self, ct))
+					out := ins.Call(callArgs(ins, key(id), id, self, ct))
 					if isQueue && len(out) == 1 && out[0].Kind() == reflect.Bool && out[0].Bool() {
 						accepted.Add(1)
 					}
 					if getM.IsValid() { // read the element just inserted and an older one (it may have been evicted meanwhile)
-						getM.Call(callArgs(getM, id, 0, self, ct))
+						getM.Call(callArgs(getM, key(id), 0, self, ct))
 						if i > 0 {
-							getM.Call(callArgs(getM, id-1, 0, self, ct))
+							getM.Call(callArgs(getM, key(id-1), 0, self, ct))
 						}
 					}
 				}
@@ -1427,8 +1468,8 @@ func runBound(c BoundCase) *pbt.Result {
 		if getM.IsValid() && hasM.IsValid() {
 			none := render(getM.Call(callArgs(getM, 987654, 0, self, ct)))
 			for id := 1; id <= total; id++ {
-				has := hasM.Call(callArgs(hasM, id, 0, self, ct))[0].Bool()
-				got := render(getM.Call(callArgs(getM, id, 0, self, ct)))
+				has := hasM.Call(callArgs(hasM, key(id), 0, self, ct))[0].Bool()
+				got := render(getM.Call(callArgs(getM, key(id), 0, self, ct)))
 				if has != (got != none) {
 					return pbt.Fail("%s (bound %d, round %d): after %d concurrent insertions ContainsKey(%d)=%v but Get(%d)=%s (a key never inserted reads %s): the two lookups disagree", c.Type, limit, round, total, id, has, id, got, none)
 				}
@@ -1436,11 +1477,11 @@ func runBound(c BoundCase) *pbt.Result {
 			// one element is looked up, pushed out by `bound` fresh insertions made without any lookup in between, and
 			// inserted again with another value: the lookup must show that value (nothing remembered from before)
 			if size > 0 && len(callArgs(ins, 1, 1, self, ct)) == 2 {
-				k := total // the newest element is present
+				k := key(total) // the newest element is present
 				if hasM.Call(callArgs(hasM, k, 0, self, ct))[0].Bool() {
 					getM.Call(callArgs(getM, k, 0, self, ct))
 					for j := 1; j <= limit; j++ {
-						ins.Call(callArgs(ins, 100000+j, 1, self, ct))
+						ins.Call(callArgs(ins, 1000003+j*977, 1, self, ct))
 					}
 					if !hasM.Call(callArgs(hasM, k, 0, self, ct))[0].Bool() {
 						args := callArgs(ins, k, k+7000, self, ct)
@@ -1453,14 +1494,14 @@ func runBound(c BoundCase) *pbt.Result {
 			}
 			// elements that were looked up and then evicted come back (single goroutine now): what is put is found
 			for id := 1; id <= total && id <= 3*limit+3; id++ {
-				if !hasM.Call(callArgs(hasM, id, 0, self, ct))[0].Bool() {
-					args := callArgs(ins, id, id+5000, self, ct) // a value the key never had before
+				if !hasM.Call(callArgs(hasM, key(id), 0, self, ct))[0].Bool() {
+					args := callArgs(ins, key(id), id+5000, self, ct) // a value the key never had before
 					ins.Call(args)
 					want := ""
 					if len(args) == 2 {
 						want = renderOne(args[1])
 					}
-					if got := render(getM.Call(callArgs(getM, id, 0, self, ct))); got == none || (want != "" && got != want) || !hasM.Call(callArgs(hasM, id, 0, self, ct))[0].Bool() {
+					if got := render(getM.Call(callArgs(getM, key(id), 0, self, ct))); got == none || (want != "" && got != want) || !hasM.Call(callArgs(hasM, key(id), 0, self, ct))[0].Bool() {
 						return pbt.Fail("%s (bound %d): key %d was looked up, evicted by later insertions and inserted again with the value %s; right after that insertion Get(%d)=%s (absent reads %s)", c.Type, limit, id, want, id, got, none)
 					}
 				}
@@ -1470,14 +1511,20 @@ func runBound(c BoundCase) *pbt.Result {
 	if res := classifyNewRaces(c.Type); res != nil {
 		return res
 	}
-	return &pbt.Result{NT: c.Producers*c.N > c.Bound, Classes: []string{"type=" + c.Type, fmt.Sprintf("bound=%d", c.Bound)}}
+	return &pbt.Result{NT: c.Producers*c.N > c.Bound, Classes: []string{"type=" + c.Type, fmt.Sprintf("bound=%d", c.Bound), fmt.Sprintf("incoming-key-shares-bucket-with-outgoing=%v", c.Collide)}}
 }
 
 var specBound = pbt.Register(pbt.Spec[BoundCase]{
 	Prop: "C10", Name: "bound-stress",
-	Rule:  "for every type with a bound (SetMax / queue capacity): 500-4000 rounds (quick) in which 2-6 goroutines insert distinct fresh elements into a fresh instance bounded to 1..5 elements (no consumer); invariants sound for any schedule: never more elements than the bound, exactly min(total, bound) at the end, for the queues exactly that many puts accepted, structural audit, and (maps, whose producers also look up what they insert) Get and ContainsKey agree for every element ever inserted; non-trivial = more insertions than the bound; distinct by case",
+	Rule:  "for every type with a bound (SetMax / queue capacity): 500-4000 rounds (quick) in which 2-6 goroutines insert distinct fresh elements into a fresh instance bounded to 1..5 elements (no consumer), or - one case in four - 20-200 rounds of 1-3 goroutines inserting 4-40 elements each whose keys are chosen so that the element coming in and the eldest one going out share a hash bucket (numeric keys k mod bound + 101 (k div bound)); invariants sound for any schedule: never more elements than the bound, exactly min(total, bound) at the end, for the queues exactly that many puts accepted, structural audit, and (maps, whose producers also look up what they insert) Get and ContainsKey agree for every element ever inserted; non-trivial = more insertions than the bound; distinct by case",
 	Quick: 120, Thorough: 6000,
 	Draw: func(t *rapid.T) BoundCase {
+		if rapid.IntRange(0, 3).Draw(t, "shape") == 0 {
+			// the element that is inserted and the eldest one that makes room for it meet in one bucket; with one producer
+			// exactly, with several approximately
+			return BoundCase{Type: rapid.SampledFrom(boundTypes()).Draw(t, "type"), Bound: rapid.IntRange(1, 6).Draw(t, "bound"), Producers: rapid.IntRange(1, 3).Draw(t, "producers"),
+				N: rapid.IntRange(4, 40).Draw(t, "n"), Rounds: rapid.IntRange(20, 200).Draw(t, "rounds"), Collide: true}
+		}
 		return BoundCase{Type: rapid.SampledFrom(boundTypes()).Draw(t, "type"), Bound: rapid.IntRange(1, 5).Draw(t, "bound"), Producers: rapid.IntRange(2, 6).Draw(t, "producers"),
 			N: rapid.IntRange(1, 4).Draw(t, "n"), Rounds: rapid.IntRange(500, pbt.Pick(4000, 10000)).Draw(t, "rounds")}
 	},
